@@ -83,15 +83,57 @@ def vidx(prog: Program, res: Result) -> int:
         # only the code after the tt_dimscheck call in the same block matters (the recursive list branch)
         after = [n for n in ast.walk(fi.node) if getattr(n, "lineno", 0) > node.lineno]
         stmts = [n for n in after if isinstance(n, ast.stmt)]
+        # loop variables that ARE an element of vidx / of dims: `for v in vidx`, `for v in vidx[::-1]`, `for d, v in zip(dims, vidx)`,
+        # `for j, v in enumerate(vidx)`; elements bound by the same loop share their position j
+        vec_elems: Dict[str, ast.AST] = {}
+        dim_elems: Dict[str, ast.AST] = {}
+
+        def seq_of(e):
+            if isinstance(e, ast.Subscript) and isinstance(e.slice, ast.Slice):
+                e = e.value
+            if isinstance(e, ast.Call) and (dotted(e.func) or "") == "reversed" and e.args:
+                e = e.args[0]
+            return e.id if isinstance(e, ast.Name) else None
+        for lp in [n for n in after if isinstance(n, (ast.For, ast.comprehension))]:
+            it, tg = lp.iter, lp.target
+            pairs = []
+            if isinstance(it, ast.Call) and (dotted(it.func) or "") == "zip" and isinstance(tg, (ast.Tuple, ast.List)) and len(tg.elts) == len(it.args):
+                pairs = list(zip(tg.elts, it.args))
+            elif isinstance(it, ast.Call) and (dotted(it.func) or "") == "enumerate" and isinstance(tg, (ast.Tuple, ast.List)) and len(tg.elts) == 2 and it.args:
+                pairs = [(tg.elts[1], it.args[0])]
+            else:
+                pairs = [(tg, it)]
+            for t_, a_ in pairs:
+                if isinstance(t_, ast.Name):
+                    sq = seq_of(a_)
+                    if sq == vid:
+                        vec_elems[t_.id] = lp
+                    elif sq == dims:
+                        dim_elems[t_.id] = lp
         for n in after:
             if isinstance(n, ast.Subscript) and isinstance(n.value, ast.Name) and n.value.id == cont and isinstance(n.ctx, ast.Load):
                 sl = n.slice
                 uses += 1
                 if isinstance(sl, ast.Subscript) and isinstance(sl.value, ast.Name) and sl.value.id == vid:
                     continue
+                if isinstance(sl, ast.Name) and sl.id in vec_elems:
+                    continue
                 if isinstance(sl, ast.Slice):
                     continue
                 problems.append(f"`{ast.unparse(n)}` (line {n.lineno}) subscripts the multiplicand list with `{ast.unparse(sl)}` instead of {vid}[..]")
+            # an element of vidx addresses multiplicands only
+            if isinstance(n, ast.Subscript) and isinstance(n.slice, ast.Name) and n.slice.id in vec_elems and not (isinstance(n.value, ast.Name) and n.value.id == cont):
+                problems.append(f"`{ast.unparse(n)[:50]}` uses the multiplicand index to address `{ast.unparse(n.value)[:30]}`")
+            if isinstance(n, ast.Subscript) and isinstance(n.value, ast.Name) and n.value.id == cont and isinstance(n.slice, ast.Name) and n.slice.id in dim_elems:
+                problems.append(f"`{ast.unparse(n)[:50]}` addresses the multiplicand list with a MODE (`{n.slice.id}` is an element of {dims})")
+        # elements taken from different loops in one statement do not share their position
+        for st in stmts:
+            if isinstance(st, (ast.If, ast.For, ast.While, ast.With, ast.Try, ast.FunctionDef)):
+                continue
+            vs = {vec_elems[x.id] for x in ast.walk(st) if isinstance(x, ast.Name) and x.id in vec_elems}
+            ds = {dim_elems[x.id] for x in ast.walk(st) if isinstance(x, ast.Name) and x.id in dim_elems}
+            if vs and ds and not (vs & ds):
+                problems.append(f"line {st.lineno}: a multiplicand index and a mode taken from different loops are combined")
         # same j within a statement
         for st in stmts:
             if isinstance(st, (ast.If, ast.For, ast.While, ast.With, ast.Try)):
@@ -465,11 +507,15 @@ def move_sync(prog: Program, res: Result) -> None:
     fi = prog.func("tensor.tensor.ttv")
     desc = "data and shape bookkeeping are reordered by the same permutation; the transposition is skipped only for <= 1 mode"
     tr = [c for c in ast.walk(fi.node) if isinstance(c, ast.Call) and (dotted(c.func) or "").split(".")[-1] == "transpose" and len(c.args) >= 2]
-    shp = [n for n in ast.walk(fi.node) if isinstance(n, ast.Subscript) and "shape" in ast.unparse(n.value) and isinstance(n.slice, ast.Call)]
-    if not tr or not shp:
-        res.undecided("MOVE", fi.short, desc, prog.loc(fi), "transpose / permuted shape not found")
+    if not tr:
+        res.undecided("MOVE", fi.short, desc, prog.loc(fi), "transpose not found")
         return
-    pt, ps_ = ast.unparse(tr[0].args[1]).replace(" ", ""), ast.unparse(shp[0].slice).replace(" ", "")
+    shp = [n for n in ast.walk(fi.node) if isinstance(n, ast.Subscript) and "shape" in ast.unparse(n.value)
+           and isinstance(fi.resolve(n.slice), ast.Call)]
+    if not shp:
+        res.undecided("MOVE", fi.short, desc, prog.loc(fi), "permuted shape not found")
+        return
+    pt, ps_ = fi.rtext(tr[0].args[1]).replace(" ", ""), fi.rtext(shp[0].slice).replace(" ", "")
     if pt != ps_:
         res.bad("MOVE", fi.short, desc, prog.loc(fi, tr[0]), f"data transposed by `{pt}` but shape reordered by `{ps_}`")
         return
